@@ -7,6 +7,10 @@ BASELINE_OFF = ("cd /repo && cargo nextest run --workspace --no-fail-fast --test
 
 # id -> (level, technique, design_ref, text, note)
 CHECKS = {
+ "C15": ("exploration", "exhaustive enumeration of event sequences up to a length bound and of value axes, emitted through the real S3Service::call and decoded by three independent decoders",
+         "DESIGN §4 C15",
+         "All sequences of length <=3 (thorough 4) over the five event kinds and two error kinds, plus payload sizes 0..1 MiB (3 MiB), Stats/Progress extremes and error messages up to the header limit, each serialised by the real encoder behind a scripted backend and decoded by an own frame reader with an own CRC-32, by aws-smithy-eventstream's MessageFrameDecoder and by aws-sdk-s3's event receiver; events, order, headers and payload bytes are compared.",
+         "error messages longer than a string header can carry are recorded, not judged; the SDK receiver is not consulted for Stats/Progress events without details (no XML payload exists for it to read)"),
  "C04": ("exploration", "bounded exhaustive enumeration (deviation bound 2, thorough 3) over a request grammar around valid base requests x service configurations, and the full product of error renderings, on the real S3Service::call / S3Error::to_http_response",
          "DESIGN §4 C04",
          "Every combination of at most k deviations (out of ~300 single deviations of method, path, query, each interpreted header, body incl. I/O errors, HTTP version) from 13 valid base requests under 16 service configurations is executed (7.4 million executions at k=2); panics are caught, hangs detected under the virtual clock, and every error response is parsed with an independent XML tokenizer and its status compared with data/s3_error_codes.json. Every code of that table is also rendered with every message / request id / override / header-map combination through both rendering paths.",
